@@ -62,6 +62,8 @@ type SourceSpec struct {
 	ReadFaultAfter int    `json:"read_fault_after"`
 	ReadFaultKind  string `json:"read_fault_kind,omitempty"` // "plain"
 	ReadFaultInst  int    `json:"read_fault_inst,omitempty"`
+	// ReadFaultUpTo: if > 0 the fault applies to every plugin instance <= ReadFaultUpTo instead.
+	ReadFaultUpTo int `json:"read_fault_up_to,omitempty"`
 
 	// C09 hostile shapes.
 	EmptyPosAt int `json:"empty_pos_at"` // seq whose position is empty (-1 none)
@@ -96,6 +98,9 @@ type DestSpec struct {
 	PerPiece map[string]Outcome `json:"per_piece,omitempty"`
 	// Group: how many acks go into one response, cycled (default 1).
 	Group []int `json:"group,omitempty"`
+	// ErrInstMax: a scripted stream error (OutErr) only fires in plugin instances <= ErrInstMax
+	// (0 = every instance), so that a recovery restart can get past it.
+	ErrInstMax int `json:"err_inst_max,omitempty"`
 }
 
 type DLQSpec struct {
